@@ -13,8 +13,8 @@ check(tier, seed):
          has been mutated through its own API (aliasing),
        * identical assignments give identical sequences whatever was built in between,
        * mappable register: exactly the requested traps, declared order, index targeting against it;
-  3. F3 probe (a C09 finding that shows here): a call with a foreign variable raises and must leave
-     `is_parametrized()` alone;
+  3. foreign-variable probe (finding F3, fixed in /repo): a call with a variable of another sequence
+     raises and must leave the sequence — `is_parametrized()`, call logs, schedule — alone;
   4. evidence.
 The Lean model is not in the loop (no driver): the model side is exercised by the `decide`
 examples of Properties/C08.lean; state leakage cannot be exhibited by a functional model anyway.
@@ -40,7 +40,7 @@ import pulser
 from pulser import Register, Sequence
 
 PROP = "C08"
-TARGETS = ["PulserModel.Param", "Proofs.Param", "Proofs.ParamStore", "Properties.C08"]
+TARGETS = ["PulserModel.Param", "Proofs.Param", "Proofs.ParamStore", "Proofs.ParamReplay", "Properties.C08"]
 COUNTS = {"quick": 600, "thorough": 12000}
 NBUILDS = 4
 TOL = 1e-9
@@ -61,9 +61,9 @@ UNCOVERED = [
     "object identity / aliasing between template and built sequence, ParamObj._instance cache, "
     "Variable._count: not representable in the functional Lean model — correspondence only (monitor of "
     "this check)",
-    "build_eq_direct needs replay of the concrete prefix: proved for successful calls stored verbatim; "
-    "enable_eom_mode/modify_eom_setpoint in the concrete prefix (stored with the chosen detuning_off) "
-    "need closest_idempotent (C09 replay_log) — correspondence only",
+    "build_eq_direct_full (any successful concrete prefix, EOM calls included, via C09's step_record) assumes "
+    "pairwise distinct detuning-off options (NodupOpts); histories with a call that raised half-way (F2.x) "
+    "are outside the theorems — correspondence only",
     "declare_channel / config_detuning_map issued while parametrized (hoisted by build): correspondence only",
     "store_no_spurious_reject is proved for the stored-call language POp (no declare_channel / "
     "config_detuning_map while parametrized) and needs distinct indices in array targets (counterexample "
@@ -96,6 +96,16 @@ def gen_case(rng: random.Random, stats: dict) -> dict | None:
         return None
     mappable = rng.random() < 0.3
     extra_ids = rng.choice([0, 0, 1, 2]) if mappable else 0
+    id_style = "default"
+    if mappable:
+        # declared orders that differ from the lexicographic order of the ids: 11+ default names
+        # (q10 < q2 as strings) or custom names declared unsorted
+        style = rng.choice(["default", "many", "custom", "custom"])
+        if style == "many":
+            extra_ids = rng.choice([11, 12, 13]) - spec["nq"]
+        elif style == "custom":
+            id_style = "custom"
+            extra_ids = rng.choice([0, 1, 3, 6])
     pool = pg.VarPool(rng)
     par = pg.Parametrizer(rng, pool, p=rng.choice([0.25, 0.45, 0.7]))
     split = rng.randrange(0, len(ops))
@@ -125,7 +135,7 @@ def gen_case(rng: random.Random, stats: dict) -> dict | None:
     pool.finish()
     for k, v in par.positions.items():
         stats["positions"][k] += v
-    ctx = pg.Ctx(spec, mappable=mappable, extra_ids=extra_ids)
+    ctx = pg.Ctx(spec, mappable=mappable, extra_ids=extra_ids, id_style=id_style)
     base = {n: list(v) for n, v in pool.base.items()}
     alts = [pg.sanitize(out, pg.perturb(rng, pool, ctx, strength=rng.choice([0.3, 1.0])), base, pool.decl)
             for _ in range(2)]
@@ -135,7 +145,8 @@ def gen_case(rng: random.Random, stats: dict) -> dict | None:
     for j in plan:
         b = dict(assign=assigns[j], tag=j, mutate=rng.random() < 0.5, scalars=rng.random() < 0.5)
         if mappable:
-            k = rng.randrange(ctx.nq, len(ctx.qids) + 1)
+            # a prefix of the declared ids (partial mapping), often all of them
+            k = len(ctx.qids) if rng.random() < 0.5 else rng.randrange(ctx.nq, len(ctx.qids) + 1)
             traps = rng.sample(range(len(ctx.coords)), k)
             ids = ctx.qids[:k]
             pairs = list(zip(ids, traps))
@@ -144,8 +155,8 @@ def gen_case(rng: random.Random, stats: dict) -> dict | None:
         builds.append(b)
     decl = {n: dict(dtype=d["dtype"], size=d["size"], roles=d["roles"],
                     scalar=(d["size"] == 1 and rng.random() < 0.6)) for n, d in pool.decl.items()}
-    return dict(spec=spec, mappable=mappable, extra_ids=extra_ids, ops=out, decl=decl, builds=builds,
-                split=split)
+    return dict(spec=spec, mappable=mappable, extra_ids=extra_ids, id_style=id_style, ops=out, decl=decl,
+                builds=builds, split=split)
 
 
 def declare_vars(seq: Sequence, decl: dict) -> dict:
@@ -271,7 +282,8 @@ class CaseResult:
 
 def run_case(case: dict, stop_first: bool = True) -> CaseResult:
     res = CaseResult()
-    ctx = pg.Ctx(case["spec"], mappable=case["mappable"], extra_ids=case.get("extra_ids", 0))
+    ctx = pg.Ctx(case["spec"], mappable=case["mappable"], extra_ids=case.get("extra_ids", 0),
+                 id_style=case.get("id_style", "default"))
     decl = case["decl"]
     tmpl, ops, reject = make_template(ctx, case)
     res.reject = reject
@@ -359,6 +371,9 @@ def run_case(case: dict, stop_first: bool = True) -> CaseResult:
                 want_ids = list(ids)
                 got_ids = list(reg.qubit_ids)
                 chosen = dict(b["qubits"])
+                found = list(tmpl.get_register(include_mappable=True).find_indices(want_ids))
+                if found != list(range(len(want_ids))):
+                    res.fails.append(Fail("mappable-order", f"build {bi}: find_indices({want_ids}) = {found}", {}))
                 if got_ids != want_ids:
                     res.fails.append(Fail("mappable-order", f"build {bi}: register ids {got_ids}, declared "
                                           f"order prefix is {want_ids}", {}))
@@ -528,7 +543,7 @@ def check(tier: str, seed: int) -> int:
                  build_errors=collections.Counter(), store_rejects=collections.Counter(),
                  register=collections.Counter(), sizes=collections.Counter(), nvars=collections.Counter(),
                  prefix_len=collections.Counter(), prefix_rejects=collections.Counter(),
-                 chan_order=collections.Counter())
+                 chan_order=collections.Counter(), mappable_ids=collections.Counter())
     evaluations = 0
     templates = 0
     distinct = set()
@@ -559,6 +574,9 @@ def check(tier: str, seed: int) -> int:
         for k, v in res.build_err.items():
             stats["build_errors"][k] += v
         stats["register"]["mappable" if case["mappable"] else "concrete"] += 1
+        if case["mappable"]:
+            nids = case["spec"]["nq"] + case.get("extra_ids", 0)
+            stats["mappable_ids"][f"{case.get('id_style', 'default')}:{'11+' if nids >= 11 else '<11'}"] += 1
         stats["sizes"][min(res.nstored, 20)] += 1
         stats["nvars"][min(len(case["decl"]), 12)] += 1
         stats["prefix_len"][min(res.nprefix, 20)] += 1
@@ -609,9 +627,16 @@ def check(tier: str, seed: int) -> int:
             if f is not None:
                 kf = match_known(f.prop, f.key, known)
                 if kf is not None:
-                    known_hits[kf["id"]] += 1
+                    # a KNOWN finding of another property: counted, not printed by this check
+                    foreign[f"{f.prop}:{kf['id']}"] += 1
                 else:
-                    foreign[f"{f.prop}:{f.clause}:{f.key.get('op')}"] += 1
+                    # nobody lists it: the call log / flags of the template are what every build replays,
+                    # so a refused call that alters them is reported here (observable owned by C09)
+                    sig = json.dumps([f.prop, f.key], sort_keys=True, default=str)
+                    if sig not in seen:
+                        seen.add(sig)
+                        violations.append(dict(property=PROP, kind="monitor", clause=f.clause, message=f.msg,
+                                               key=dict(f.key, owner=f.prop), case=case, probe="foreign-variable"))
         if violations and tier == "quick":
             break
 
@@ -635,7 +660,7 @@ def check(tier: str, seed: int) -> int:
             store_time_rejections=dict(stats["store_rejects"]), store_time_rejection_samples=reject_samples,
             concrete_prefix_truncations=dict(stats["prefix_rejects"]),
             channel_table_order_vs_direct=dict(stats["chan_order"]),
-            register_kinds=dict(stats["register"]), stored_calls_per_template=dict(stats["sizes"]),
+            register_kinds=dict(stats["register"]), mappable_id_styles=dict(stats["mappable_ids"]), stored_calls_per_template=dict(stats["sizes"]),
             variables_per_template=dict(stats["nvars"]), concrete_prefix_length=dict(stats["prefix_len"]),
             float_ambiguous=ambiguous, foreign_variable_probes=probes,
             foreign_divergence=dict(foreign), known_findings_hit=dict(known_hits),
@@ -646,12 +671,11 @@ def check(tier: str, seed: int) -> int:
     write_evidence(PROP, ev)
     printed = set()
     for kf in known:
-        if kf.get("status") == "known" and known_hits.get(kf["id"], 0) and kf["id"] not in printed:
+        if kf.get("status") == "known" and kf.get("property") == PROP and known_hits.get(kf["id"], 0) \
+                and kf["id"] not in printed:
             printed.add(kf["id"])
             print(f"KNOWN-FINDING: property={kf['property']} [{kf['id']}] {kf['what']} "
                   f"(reproduced {known_hits[kf['id']]}x in this run)")
-    for k, v in foreign.items():
-        print(f"FOREIGN-FINDING: {k} x{v} (observable owned by another property; see evidence)")
     if violations:
         for v in violations:
             p = write_replay(PROP, v)
@@ -665,6 +689,15 @@ def check(tier: str, seed: int) -> int:
 def replay(path: str) -> int:
     item = json.loads(Path(path).read_text())
     case = item.get("case", item)
+    if item.get("probe") == "foreign-variable":
+        for i in range(8):
+            f = foreign_variable_probe(random.Random(f"replay-{i}"), case)
+            if f is not None:
+                print(f"  {f}")
+                print(f"VIOLATION property={PROP} replay={path}")
+                return 1
+        print("replay: a call with a foreign variable raises and changes nothing")
+        return 0
     res = run_case(case, stop_first=False)
     print(f"template: {res.nprefix} concrete calls, {res.nstored} stored calls; builds={res.builds} ok={res.build_ok}")
     if res.reject:
